@@ -165,14 +165,28 @@ func init() {
 					}
 					// the value derives from node.<same field>
 					from := false
-					ast.Inspect(v, func(nd ast.Node) bool {
-						if sel, ok := nd.(*ast.SelectorExpr); ok && sel.Sel.Name == f.Name() {
-							if id, ok := ast.Unparen(sel.X).(*ast.Ident); ok && fi.Info.ObjectOf(id) == nodeVar {
-								from = true
+					var look func(e ast.Node, depth int)
+					look = func(e ast.Node, depth int) {
+						ast.Inspect(e, func(nd ast.Node) bool {
+							if sel, ok := nd.(*ast.SelectorExpr); ok && sel.Sel.Name == f.Name() {
+								if id, ok := ast.Unparen(sel.X).(*ast.Ident); ok && fi.Info.ObjectOf(id) == nodeVar {
+									from = true
+								}
 							}
-						}
-						return true
-					})
+							// the element variable of a loop over the original's field stands for that field's elements
+							if id, ok := nd.(*ast.Ident); ok && depth < 3 {
+								if vv, ok := fi.Info.Uses[id].(*types.Var); ok {
+									for _, d := range fi.defs[vv] {
+										if rs, ok := d.node.(*ast.RangeStmt); ok && d.kind == "range-val" {
+											look(rs.X, depth+1)
+										}
+									}
+								}
+							}
+							return true
+						})
+					}
+					look(v, 0)
 					r.Check(from, "copyAST/"+key, cc.Pos(), "%s is copied from the original's %s", key, f.Name())
 					// a child that is itself a node is taken from the copy map (deep copy): sharing
 					// a subtree with the loaded syntax lets the later in-place rewrite edit the original
@@ -182,29 +196,46 @@ func init() {
 					}
 					if from && nodeIface != nil && types.Implements(et, nodeIface) {
 						deep := false
-						var path []ast.Node
-						ast.Inspect(v, func(nd ast.Node) bool {
-							if nd == nil {
-								path = path[:len(path)-1]
-								return true
-							}
-							path = append(path, nd)
-							if sel, ok := nd.(*ast.SelectorExpr); ok && sel.Sel.Name == f.Name() {
-								if id, ok := ast.Unparen(sel.X).(*ast.Ident); ok && fi.Info.ObjectOf(id) == nodeVar {
-									for _, anc := range path {
-										switch a := anc.(type) {
-										case *ast.CallExpr:
-											for _, arg := range a.Args {
-												if isCopyMap(fi.Info.TypeOf(arg)) {
-													deep = true
-												}
-											}
-										case *ast.IndexExpr:
-											if isCopyMap(fi.Info.TypeOf(a.X)) {
-												deep = true
-											}
+						// e denotes (an element of) the original's field: node.F, node.F[i], or the element variable
+						// of a loop over node.F
+						var isOrig func(e ast.Expr, depth int) bool
+						isOrig = func(e ast.Expr, depth int) bool {
+							switch x := ast.Unparen(e).(type) {
+							case *ast.IndexExpr:
+								return isOrig(x.X, depth)
+							case *ast.SelectorExpr:
+								if id, ok := ast.Unparen(x.X).(*ast.Ident); ok && x.Sel.Name == f.Name() && fi.Info.ObjectOf(id) == nodeVar {
+									return true
+								}
+							case *ast.Ident:
+								if vv, ok := fi.Info.Uses[x].(*types.Var); ok && depth < 3 {
+									for _, d := range fi.defs[vv] {
+										if rs, ok := d.node.(*ast.RangeStmt); ok && d.kind == "range-val" && isOrig(rs.X, depth+1) {
+											return true
 										}
 									}
+								}
+							}
+							return false
+						}
+						ast.Inspect(v, func(nd ast.Node) bool {
+							switch a := nd.(type) {
+							case *ast.CallExpr:
+								hasMap, hasOrig := false, false
+								for _, arg := range a.Args {
+									if isCopyMap(fi.Info.TypeOf(arg)) {
+										hasMap = true
+									}
+									if isOrig(arg, 0) {
+										hasOrig = true
+									}
+								}
+								if hasMap && hasOrig {
+									deep = true
+								}
+							case *ast.IndexExpr:
+								if isCopyMap(fi.Info.TypeOf(a.X)) && isOrig(a.Index, 0) {
+									deep = true
 								}
 							}
 							return true
